@@ -91,6 +91,20 @@ pub fn search(seed: u64, full: bool, rt: &tokio::runtime::Runtime) -> SearchResu
         }
         if out.len() > 30 { break; }
     }
+    // soundness of a sibling-less membership proof (known finding C05-D15 while it reproduces)
+    for (cfg, r) in zero_sibling(rt) {
+        n += 1;
+        if let Ok(true) = r {
+            out.push(Failure {
+                clause: "verify_base/verify_membership#label_of_sibling_less_proof".into(),
+                case: vec!["c05".into(), "zerosibling".into(), cfg.clone()],
+                input: format!("[{cfg}] leaves {{00.., 20.., 80..}}; the membership proof (label 40.. - not in the set -, hash value = the root node's value, NO sibling proofs) against the tree's root hash"),
+                expected: "verify_membership rejects (40.. is not in the set)".into(),
+                observed: "accepted: with no sibling proof the fold is the claimed hash value itself and nothing binds the claimed label".into(),
+                finding_id: Some("C05-D15".into()),
+            });
+        }
+    }
     // completeness on the empty leaf set (known finding C05-D8 while it reproduces)
     for (cfg, r) in empty_tree(rt) {
         n += 1;
@@ -109,6 +123,11 @@ pub fn search(seed: u64, full: bool, rt: &tokio::runtime::Runtime) -> SearchResu
 }
 
 pub fn replay(case: &[&str], rt: &tokio::runtime::Runtime) -> (bool, String) {
+    if case[0] == "zerosibling" {
+        let r = zero_sibling(rt);
+        let hit = r.iter().any(|(c, x)| c == case[1] && matches!(x, Ok(true)));
+        return (hit, format!("sibling-less membership proof for an absent label accepted: {hit}"));
+    }
     if case[0] == "invariants" {
         let mut out = vec![];
         run_invariants(case[1], case[2].parse().unwrap(), case[3].parse().unwrap(), case[4] == "1", rt, &mut out);
@@ -131,6 +150,19 @@ pub fn empty_tree(rt: &tokio::runtime::Runtime) -> Vec<(String, Result<bool, Str
         ("whatsapp_v1".to_string(), rt.block_on(akd::vx_export::c05_empty_tree_nonmembership::<akd_core::WhatsAppV1Configuration>()).map_err(|e| e.to_string())),
         ("experimental".to_string(), rt.block_on(akd::vx_export::c05_empty_tree_nonmembership::<akd_core::ExperimentalConfiguration<akd_core::ExampleLabel>>()).map_err(|e| e.to_string())),
     ]
+}
+
+pub fn zero_sibling(rt: &tokio::runtime::Runtime) -> Vec<(String, Result<bool, String>)> {
+    vec![
+        ("whatsapp_v1".to_string(), rt.block_on(akd::vx_export::c05_zero_sibling_membership::<akd_core::WhatsAppV1Configuration>()).map_err(|e| e.to_string())),
+        ("experimental".to_string(), rt.block_on(akd::vx_export::c05_zero_sibling_membership::<akd_core::ExperimentalConfiguration<akd_core::ExampleLabel>>()).map_err(|e| e.to_string())),
+    ]
+}
+/// Known finding D15: a sibling-less membership proof carrying the root node's value verifies for any label (both configurations).
+pub fn finding_d15(rt: &tokio::runtime::Runtime) -> (bool, String) {
+    let r = zero_sibling(rt);
+    let rep = r.iter().all(|(_, x)| matches!(x, Ok(true)));
+    (rep, format!("(absent label, root value, no siblings) accepted by verify_membership?: {r:?}"))
 }
 
 /// Known finding D8: the server's non-membership proof against the EMPTY tree is rejected by verify_nonmembership (both configurations).
